@@ -146,7 +146,7 @@ func c11Scenario(name string, d *Drv, bound int, workers map[string]int, policie
 		Prepare: func() {
 			// is the driver free of every fault but the cancellation? (the same call without massive and without cancel succeeds)
 			clean = false
-			if d.ReaderFailAfter < 0 && d.WriterFailAt == 0 && d.CbFailAt == 0 && d.FSFailAt == 0 {
+			if d.ReaderFailAfter < 0 && d.WriterFailAt == 0 && d.CbFailAt == 0 && d.FSFailAt == 0 && d.CbGoexitAt == 0 {
 				ref := *d
 				ref.Simple, ref.Canceller, ref.PreCancel, ref.ReaderCancelAt, ref.NoYield = true, false, false, -1, true
 				run := ref.New()
@@ -161,6 +161,7 @@ func c11Scenario(name string, d *Drv, bound int, workers map[string]int, policie
 			if strings.HasPrefix(d.Op, "out-") || strings.HasPrefix(d.Op, "root:out-") {
 				ref := *d
 				ref.Simple, ref.ReaderFailAfter, ref.ReaderCancelAt, ref.WriterFailAt, ref.Canceller, ref.PreCancel, ref.NoYield = true, -1, -1, 0, false, false, true
+				ref.CbGoexitAt = 0
 				run := ref.New()
 				func() {
 					defer func() { recover() }()
@@ -283,6 +284,13 @@ func init() {
 				d.WriterFailAt, d.ErrFlavour = 1, fl
 				add(fmt.Sprintf("writerkind/%s/%s", fl, op), d, k1, w2)
 			}
+		}
+		// 1f. a callback that ends its goroutine (runtime.Goexit - what t.FailNow does when called from the callback):
+		// the worker is gone, its stage must still wind up and the call must come back
+		for _, at := range []int{1, 3} {
+			g := NewDrv("walk", ok3)
+			g.CbGoexitAt = at
+			add(fmt.Sprintf("cbgoexit/at%d", at), g, k1, w2)
 		}
 		// 1e. heading roots (the parser keeps a flag for them): two heading documents, all stages
 		add("sharp2/out-text", NewDrv("out-text", "# a\n- b\n# c\n- d\n"), k1, w2)
